@@ -82,7 +82,13 @@ def run(ctx):
         g = asm.gen_wellformed(rng, enz, rng.randint(1, 4))
         if g is None:
             continue
-        ctx.guard(check_assembly, g[0])
+        case = g[0]
+        if rng.random() < 0.35:
+            # soft-masked records: the two strands must still be treated alike
+            for e in [case["vector"]] + case["mods"]:
+                if rng.random() < 0.4:
+                    e["word"] = gen.recase(rng, e["word"], rng.choice(["lower", "mixed"]))
+        ctx.guard(check_assembly, case)
     # junction overhangs that clash only through the vector's upstream overhang (palindromic, or the reverse
     # complement of an inner junction): the documented asymmetry of the duplicate screen
     for enz in asm.pick_enzymes(rng, ctx.budget(30, 600)):
